@@ -5,6 +5,8 @@ Nothing is executed: statements are folded by def-use substitution into ``form.R
 Loops are outside the expressible fragment and raise ``Undecided``.
 """
 import ast
+import copy
+import re
 from fractions import Fraction
 
 from . import form
@@ -57,6 +59,18 @@ def _strval(r):
     return None
 
 
+_ITER_SYM = re.compile(r"^\$[A-Za-z_][A-Za-z_0-9]*#(\d+)$")
+
+
+def _iter_pos(idx):
+    """Position (0-based) denoted by the index symbol of the k-th unrolled iteration of a loop ($i#1 -> 0, $i#2 -> 1)."""
+    if isinstance(idx, Rat):
+        m_ = _ITER_SYM.match(idx.key())
+        if m_:
+            return int(m_.group(1)) - 1
+    return None
+
+
 class Outcome(object):
     def __init__(self, conds, value, kind="return", node=None):
         self.conds = conds      # list of (Rat cond, bool polarity)
@@ -85,10 +99,37 @@ class Path(object):
         return p
 
 
+PROGRAM = None          # set by the harness: the program model used to see through helpers
+_KNOWN = None
+INLINE_DEPTH = 3
+
+
+def set_program(prog):
+    global PROGRAM
+    PROGRAM = prog
+
+
+def _known():
+    global _KNOWN
+    if _KNOWN is None:
+        import json
+        import os
+        here = os.path.dirname(os.path.dirname(os.path.abspath(__file__)))
+        with open(os.path.join(here, "tables", "known_methods.json")) as fh:
+            _KNOWN = json.load(fh)
+    return _KNOWN
+
+
+def _has_yield(fdef):
+    return any(isinstance(n, (ast.Yield, ast.YieldFrom)) for n in ast.walk(fdef))
+
+
 class Evaluator(object):
     def __init__(self, module, selfname="self", call_hook=None, noreturn=("verif.util.error", "sys.exit"),
                  len_syms=None, max_paths=128):
         self.module = module
+        self.cls = None           # class of the function being evaluated (set by run)
+        self.inline_depth = INLINE_DEPTH
         self.selfname = selfname
         self.call_hook = call_hook
         self.noreturn = set(noreturn)
@@ -108,7 +149,7 @@ class Evaluator(object):
     def ev(self, node, path):
         m = getattr(self, "ev_" + type(node).__name__, None)
         if m is None:
-            return form.apply("expr:" + norm(node), [])
+            return self._opaque(node, path)
         return m(node, path)
 
     def ev_Constant(self, node, path):
@@ -162,7 +203,7 @@ class Evaluator(object):
         if not isinstance(a, Rat) or not isinstance(b, Rat):
             if isinstance(node.op, ast.Add) and isinstance(a, (list, tuple)) and isinstance(b, (list, tuple)):
                 return list(a) + list(b)
-            return form.apply("expr:" + norm(node), [])
+            return self._opaque(node, path)
         op = node.op
         try:
             if isinstance(op, ast.Add):
@@ -212,7 +253,7 @@ class Evaluator(object):
                 left = right
                 continue
             if not isinstance(left, Rat) or not isinstance(right, Rat):
-                parts.append(form.apply("expr:" + norm(node), []))
+                parts.append(self._opaque(node, path))
             else:
                 parts.append(form.apply(CMP[type(op)], [left, right]))
             left = right
@@ -252,9 +293,13 @@ class Evaluator(object):
                     return base[int(idx.const_value())]
                 except IndexError:
                     pass
+            pos = _iter_pos(idx)
+            if pos is not None and pos < len(base):
+                # the k-th unrolled iteration of an index loop addresses the element that the k-th iteration of the filling loop made
+                return base[pos]
             if isinstance(idx, Rat) and all(isinstance(b, Rat) for b in base):
                 return form.apply("getitem", [tuple(base), idx])
-            return form.apply("expr:" + norm(node), [])
+            return self._opaque(node, path)
         at = base.as_atom() if isinstance(base, Rat) else None
         if at is not None and at.func == "corrcoef" and isinstance(idx, tuple) and len(idx) == 2:
             iv = [i.const_value() if isinstance(i, Rat) else None for i in idx]
@@ -270,11 +315,19 @@ class Evaluator(object):
         rname = self.module.resolve(fn) if fn else None
         args = [self.ev(a, path) for a in node.args if not isinstance(a, ast.Starred)]
         kwargs = {k.arg: self.ev(k.value, path) for k in node.keywords if k.arg}
-        self._event("call", path, node, name=rname or norm(node.func), args=args, kwargs=kwargs)
+        recv = None
+        if isinstance(node.func, ast.Attribute) and isinstance(node.func.value, ast.Name) and node.func.value.id in path.env \
+                and node.func.value.id not in self.module.aliases:
+            rv = path.env[node.func.value.id]
+            recv = rv if isinstance(rv, Rat) else (form.apply("pylist", [tuple(rv)]) if isinstance(rv, list) and all(isinstance(x, Rat) for x in rv) else None)
+        self._event("call", path, node, name=rname or norm(node.func), args=args, kwargs=kwargs, recv=recv)
         if self.call_hook is not None:
             r = self.call_hook(self, node, rname, args, kwargs, path)
             if r is not None:
                 return r
+        r = self._inline_unknown(node, fn, rname, args, kwargs, path)
+        if r is not None:
+            return r
         if fn and fn.startswith(self.selfname + ".") and fn.count(".") == 1:
             meth = fn.split(".")[1]
             if meth == "aggregator":
@@ -334,18 +387,139 @@ class Evaluator(object):
             flat.append(tuple(a) if isinstance(a, list) else a)
         if isinstance(node.func, ast.Name) and isinstance(path.env.get(node.func.id), Rat) and path.env[node.func.id].key() != "$" + node.func.id:
             return form.apply("callobj", [path.env[node.func.id]] + flat, kwargs)
+        if rname is None:
+            # the callee is not a plain dotted name (a subscripted / computed callable, a method of a local object): an
+            # uninterpreted application of the callee's VALUE, so that the names of local variables do not matter
+            root = node.func
+            chain = []
+            while isinstance(root, ast.Attribute):
+                chain.append(root.attr)
+                root = root.value
+            if isinstance(root, ast.Name) and root.id in path.env and root.id not in self.module.aliases and chain:
+                rv = path.env[root.id]
+                if isinstance(rv, Rat) and rv.key() != "$" + root.id:
+                    return form.apply("m:" + ".".join(reversed(chain)), [rv] + flat, kwargs)
+            if fn is None:
+                fv = self.ev(node.func, path)
+                if isinstance(fv, Rat):
+                    return form.apply("callobj", [fv] + flat, kwargs)
         return form.apply("call:" + (rname or norm(node.func)), flat, kwargs)
+
+    def _inline_unknown(self, node, fn, rname, args, kwargs, path):
+        """A call to a helper of verif/scripts that tables/known_methods.json does not list (introduced after the rules were
+        written) is evaluated in place: its events are recorded under the caller's path conditions and the call is replaced by its
+        (if-merged) return value.  Known methods and functions stay opaque; generators and recursion are not inlined."""
+        prog = PROGRAM
+        if prog is None or self.inline_depth <= 0 or fn is None or not hasattr(self.module, "functions"):
+            return None
+        known = _known()
+        owner = fdef = None
+        bound = False
+        parts = fn.split(".")
+        if parts[0] == self.selfname and len(parts) == 2 and self.cls is not None:
+            hit = prog.lookup_method(self.cls, parts[1])
+            if hit is not None and parts[1] not in known["classes"].get(hit[0].qual, [parts[1]]):
+                owner, fdef, bound = hit[0], hit[1], True
+        if fdef is None and len(parts) >= 2:
+            cq = self.module.resolve(".".join(parts[:-1]))
+            c = prog.cls(cq, required=False) if cq else None
+            if c is None and len(parts) == 2 and parts[0] in self.module.classes:
+                c = self.module.classes[parts[0]]
+            if c is not None:
+                hit = prog.lookup_method(c, parts[-1])
+                if hit is not None and parts[-1] not in known["classes"].get(hit[0].qual, [parts[-1]]):
+                    owner, fdef = hit
+        callee_module = owner.module if owner is not None else None
+        if fdef is None and rname:
+            modname, _, fname = rname.rpartition(".")
+            m2 = prog.modules.get(modname)
+            if m2 is None and len(parts) == 1 and parts[0] in self.module.functions:
+                m2, fname = self.module, parts[0]
+            if m2 is not None and fname in m2.functions and fname not in known["functions"].get(m2.name if hasattr(m2, "name") else modname, [fname]):
+                fdef, callee_module = m2.functions[fname], m2
+        if fdef is None and len(parts) == 1 and parts[0] in self.module.functions:
+            mn = getattr(self.module, "name", None)
+            if mn is not None and parts[0] not in known["functions"].get(mn, [parts[0]]):
+                fdef, callee_module = self.module.functions[parts[0]], self.module
+        if fdef is None or _has_yield(fdef):
+            return None
+        decos = [dotted(d) for d in fdef.decorator_list]
+        params = [a.arg for a in fdef.args.args]
+        if params and params[0] in ("self", "cls") and "staticmethod" not in decos:
+            params = params[1:]
+        env = {k: v for k, v in path.env.items() if k.startswith(self.selfname + ".")}
+        for p_, a in zip(params, args):
+            env[p_] = a
+        for k, v in kwargs.items():
+            env[k] = v
+        sub = Evaluator(callee_module, selfname=self.selfname, call_hook=self.call_hook, noreturn=tuple(self.noreturn), max_paths=self.max_paths)
+        sub.cls = owner if owner is not None else None
+        sub.inline_depth = self.inline_depth - 1
+        sub.loop_mode, sub.merge_ifs, sub.record = self.loop_mode, True, self.record
+        sub.events, sub.loop_stack, sub.iter_tag, sub.no_thread_prefixes = self.events, self.loop_stack, self.iter_tag, self.no_thread_prefixes
+        sub.loops = self.loops
+        for p_, d in zip(params[len(params) - len(fdef.args.defaults):], fdef.args.defaults):
+            if p_ not in env:
+                env[p_] = sub.ev(d, Path({}, []))
+        for p_ in params:
+            if p_ not in env:
+                return None
+        try:
+            sub.outcomes = []
+            sub_path = Path(env, list(path.conds))
+            sub.exec_block(fdef.body, [sub_path])
+        except Undecided:
+            return None
+        outs = [o for o in sub.outcomes if o.kind == "return"]
+        errs = [o for o in sub.outcomes if o.kind == "error"]
+        for o in errs:
+            self.outcomes.append(o)
+        if not outs:
+            return Rat.sym("None")
+        base = len(path.conds)
+        val = outs[-1].value
+        for o in reversed(outs[:-1]):
+            cond = None
+            for c_, pol in o.conds[base:]:
+                lit = c_ if pol else form.apply("not", [c_])
+                cond = lit if cond is None else form.apply("and", [cond, lit])
+            if cond is None:
+                val = o.value
+            elif isinstance(o.value, Rat) and isinstance(val, Rat):
+                val = form.apply("ifexp", [cond, o.value, val])
+            elif isinstance(o.value, list) and isinstance(val, list) and len(o.value) == len(val):
+                val = [form.apply("ifexp", [cond, a, b]) if isinstance(a, Rat) and isinstance(b, Rat) else a for a, b in zip(o.value, val)]
+        for o in outs:
+            path.divs.extend(x for x in getattr(o, "divs", []) if x not in path.divs)
+            path.logs.extend(x for x in getattr(o, "logs", []) if x not in path.logs)
+        return val
 
     def ev_ListComp(self, node, path):
         """[f(x) for x in seq if c] -> map(f(elem(seq)), seq, c...) ; anything else is opaque."""
         if len(node.generators) != 1 or node.generators[0].is_async:
-            return form.apply("expr:" + norm(node), [])
+            return self._opaque(node, path)
         g = node.generators[0]
         seq = self.ev(g.iter, path)
+        if isinstance(seq, list) and isinstance(node, ast.ListComp) and not g.ifs and seq and len(seq) <= 6 and all(isinstance(x, Rat) for x in seq):
+            # a comprehension over a python list of known values is evaluated element by element
+            out = []
+            saved = dict(path.env)
+            rec = self.record
+            self.record = False
+            try:
+                for x in seq:
+                    self.assign(g.target, x, path)
+                    out.append(self.ev(node.elt, path))
+            finally:
+                path.env.clear()
+                path.env.update(saved)
+                self.record = rec
+            if all(isinstance(x, Rat) for x in out):
+                return out
         if isinstance(seq, list):
             seq = form.apply("pylist", [tuple(seq)]) if all(isinstance(x, Rat) for x in seq) else None
         if not isinstance(seq, Rat):
-            return form.apply("expr:" + norm(node), [])
+            return self._opaque(node, path)
         saved = dict(path.env)
         rec = self.record
         self.record = False
@@ -358,7 +532,7 @@ class Evaluator(object):
             path.env.update(saved)
             self.record = rec
         if not isinstance(body, Rat) or not all(isinstance(c, Rat) for c in conds):
-            return form.apply("expr:" + norm(node), [])
+            return self._opaque(node, path)
         return form.apply("map", [body, seq] + conds)
 
     ev_GeneratorExp = ev_ListComp
@@ -367,17 +541,43 @@ class Evaluator(object):
         items = []
         for k, v in zip(node.keys, node.values):
             if k is None:
-                return form.apply("expr:" + norm(node), [])
+                return self._opaque(node, path)
             kv, vv = self.ev(k, path), self.ev(v, path)
             if isinstance(vv, list):
-                vv = form.apply("pylist", [tuple(vv)]) if all(isinstance(x, Rat) for x in vv) else form.apply("expr:" + norm(v), [])
+                vv = form.apply("pylist", [tuple(vv)]) if all(isinstance(x, Rat) for x in vv) else self._opaque(v, path)
             if not isinstance(kv, Rat) or not isinstance(vv, Rat):
-                return form.apply("expr:" + norm(node), [])
+                return self._opaque(node, path)
             items.append((kv, vv))
         return form.apply("pydict", [tuple(x for kv in items for x in kv)])
 
+    def _opaque(self, node, path):
+        """An expression outside the modelled fragment becomes an uninterpreted function of the VALUES of the variables it mentions
+        (so the atom does not depend on how local variables are called)."""
+        names = []
+        for n in ast.walk(node):
+            if isinstance(n, ast.Name) and isinstance(n.ctx, ast.Load) and n.id in path.env and n.id not in names:
+                names.append(n.id)
+        if not names:
+            return form.apply("expr:" + norm(node), [])
+        try:
+            tree = copy.deepcopy(node)
+            order = {}
+            for n in ast.walk(tree):
+                if isinstance(n, ast.Name) and n.id in names:
+                    order.setdefault(n.id, "_v%d" % len(order))
+                    n.id = order[n.id]
+            vals = []
+            for nm in sorted(order, key=lambda k: order[k]):
+                v = path.env[nm]
+                if isinstance(v, list):
+                    v = form.apply("pylist", [tuple(v)]) if all(isinstance(x, Rat) for x in v) else Rat.sym("opaque_list")
+                vals.append(v if isinstance(v, Rat) else Rat.sym("opaque"))
+            return form.apply("expr:" + norm(tree), vals)
+        except Exception:
+            return form.apply("expr:" + norm(node), [])
+
     def ev_opaque(self, node, path):
-        return form.apply("expr:" + norm(node), [])
+        return self._opaque(node, path)
     ev_Lambda = ev_opaque
     ev_JoinedStr = ev_opaque
     ev_DictComp = ev_opaque
@@ -428,6 +628,22 @@ class Evaluator(object):
                 if isinstance(old, Rat) and isinstance(value, Rat):
                     ix = tuple(i if isinstance(i, (Rat, tuple)) else (i,) for i in idxs)
                     path.env[d] = form.apply("setitem", [old, ix if len(ix) > 1 else ix[0], value])
+                elif isinstance(old, list) and idxs:
+                    # python list of values: a constant index or the index symbol of an unrolled iteration selects the element
+                    pos = None
+                    if isinstance(idxs[0], Rat) and idxs[0].const_value() is not None:
+                        pos = int(idxs[0].const_value())
+                        pos = pos if 0 <= pos < len(old) else (pos + len(old) if -len(old) <= pos < 0 else None)
+                    if pos is None:
+                        pos = _iter_pos(idxs[0])
+                    if pos is not None and pos < len(old):
+                        new_list = list(old)
+                        if len(idxs) == 1:
+                            new_list[pos] = value
+                        elif isinstance(old[pos], Rat) and isinstance(value, Rat):
+                            rest = tuple(i if isinstance(i, (Rat, tuple)) else (i,) for i in idxs[1:])
+                            new_list[pos] = form.apply("setitem", [old[pos], rest if len(rest) > 1 else rest[0], value])
+                        path.env[d] = new_list
 
     def exec_block(self, stmts, paths):
         for st in stmts:
@@ -451,7 +667,11 @@ class Evaluator(object):
                 if rname in self.noreturn:
                     self.outcomes.append(Outcome(path.conds, None, "error", st))
                     return []
+                n0 = len(self.events)
                 self.ev(st.value, path)
+                for e in self.events[n0:]:
+                    if e["kind"] == "call" and e["node"] is st.value:
+                        e["stmt"] = True          # a call made for its effect (its value is discarded)
             return [path]
         if isinstance(st, ast.Assign):
             v = self.ev(st.value, path)
@@ -490,7 +710,7 @@ class Evaluator(object):
             if cv is not None:
                 return self.exec_block(st.body if cv != 0 else st.orelse, [path])
             if not isinstance(c, Rat):
-                c = form.apply("expr:" + norm(st.test), [])
+                c = self._opaque(st.test, path)
             known = self.known_polarity(c, path)
             if known is not None:
                 return self.exec_block(st.body if known else st.orelse, [path])
@@ -518,6 +738,35 @@ class Evaluator(object):
             return self.exec_block(st.body, [path])
         if isinstance(st, ast.For) and self.loop_mode in ("body_once", "unroll2"):
             it = self.ev(st.iter, path)
+            if isinstance(it, list) and it and len(it) <= 6 and all(isinstance(x, Rat) for x in it) and isinstance(st.target, ast.Name) and not st.orelse:
+                # loop over a python list of known values (typically the two results of an unrolled filling loop): element by
+                # element; an in-place store into the loop variable is a store into the list element
+                self.loops.append({"node": st, "iter": form.apply("pylist", [tuple(it)]), "path": path, "conds": list(path.conds)})
+                self.loop_stack.append(st)
+                live, done = [path], []
+                lname = dotted(st.iter)
+                for k, x in enumerate(it):
+                    self.iter_tag.append(k + 1)
+                    nxt = []
+                    for p in live:
+                        self.assign(st.target, x, p, st)
+                        for q in self.exec_block(st.body, [p]):
+                            if lname is not None and isinstance(q.env.get(lname), list) and k < len(q.env[lname]) and isinstance(q.env.get(st.target.id), Rat):
+                                cur = q.env[st.target.id]
+                                if cur.as_atom("setitem") is not None and cur.key() != x.key():
+                                    lst = list(q.env[lname])
+                                    lst[k] = cur
+                                    q.env[lname] = lst
+                            if q.ctrl == "break":
+                                q.ctrl = None
+                                done.append(q)
+                            else:
+                                q.ctrl = None
+                                nxt.append(q)
+                    live = nxt
+                    self.iter_tag.pop()
+                self.loop_stack.pop()
+                return live + done
             self.loops.append({"node": st, "iter": it, "path": path, "conds": list(path.conds)})
             n_iter = 2 if self.loop_mode == "unroll2" else 1
             live = [path]
@@ -542,7 +791,7 @@ class Evaluator(object):
         if isinstance(st, ast.While) and self.loop_mode in ("body_once", "unroll2"):
             c = self.ev(st.test, path)
             if not isinstance(c, Rat):
-                c = form.apply("expr:" + norm(st.test), [])
+                c = self._opaque(st.test, path)
             self.loops.append({"node": st, "iter": c, "path": path, "conds": list(path.conds)})
             marker = (c, True)
             path.conds.append(marker)
@@ -570,7 +819,8 @@ class Evaluator(object):
         if isinstance(st, (ast.For, ast.While)):
             raise Undecided("loop at line %d" % st.lineno)
         if isinstance(st, ast.Try):
-            exc = form.apply("exception", [Rat.const(st.lineno)])
+            self._try_count = getattr(self, "_try_count", 0) + 1
+            exc = form.apply("exception", [Rat.const(self._try_count)])     # ordinal of the try statement, not its line
             pre = path.fork()
             body_live = self.exec_block(st.body + st.orelse, [path])
             h_live = []
@@ -634,6 +884,10 @@ class Evaluator(object):
     def run(self, fdef, env=None, skip_self=True):
         """Evaluate a function definition; parameters become symbols.  Returns outcomes."""
         self.outcomes = []
+        if self.cls is None and PROGRAM is not None:
+            for c in self.module.classes.values():
+                if any(f is fdef for f in c.methods.values()):
+                    self.cls = c
         e = {}
         for a in fdef.args.args + fdef.args.kwonlyargs:
             if skip_self and a.arg == self.selfname:
